@@ -631,6 +631,16 @@ func genGroupQuery(r *rand.Rand, t *jTable, window bool) jQuery {
 				E: &XExpr{K: "bin", N: op, Sub: []*XExpr{t.Fields[a].E, t.Fields[b].E}}})
 		}
 	}
+	dup := false
+	if len(q.Fields) > 0 && r.Intn(3) == 0 {
+		// the same stored field a second time under another name (mostly one that is selected as it is, too)
+		src := q.Fields[r.Intn(len(q.Fields))]
+		if src.Derived != "" || r.Intn(4) == 0 {
+			src = refField(t, r.Intn(len(t.Fields)))
+		}
+		q.Fields = append(q.Fields, jField{Name: "dup", Derived: src.Name, E: src.E})
+		dup = true
+	}
 	// grouping
 	switch r.Intn(5) {
 	case 0:
@@ -663,6 +673,14 @@ func genGroupQuery(r *rand.Rand, t *jTable, window bool) jQuery {
 			q.PeriodNS = t.ResNS*int64(1+r.Intn(3)) + t.ResNS/2 // not a multiple: planning error
 		} else {
 			q.PeriodNS = t.RetNS * 2 // larger than the window
+		}
+	}
+	if dup && r.Intn(2) == 0 {
+		// at the table's own resolution, over fewer dims: several stored rows per output row, merged period by period
+		q.PeriodNS = 0
+		if q.GroupBy == "" || q.GroupBy == "*" {
+			q.GroupBy = "dims"
+			q.Dims = []string{[]string{"d1", "d2", "d3"}[r.Intn(3)]}
 		}
 	}
 	if window {
